@@ -325,6 +325,9 @@ def run(ctx):
             pos_cases.append({'bind': c['bind'], 'e': e, 'want': want, 'what': 'position', 'bound': c['scope']})
     for e, want, what in binder_cases(rng):
         pos_cases.append({'bind': [], 'e': e, 'want': want, 'what': what, 'bound': []})
+    # the keyword `in` as the first part of an iteration variable: no variable name before it, the text is an ordinary name (fixed 83bd59b: was a panic)
+    for text in ('for in+x in [1] return 1', 'some in-x in [1] satisfies true', 'every in.a in [1] satisfies true'):
+        pos_cases.append({'bind': [[['zz'], 1]], 'e': text, 'want': 'parse', 'what': 'in as first part', 'bound': [['zz']]})
     # listed findings: the witnesses run on every run
     for parts, text in ((['a', '+', '-', 'b'], 'a+-b + 0'), (['a', '+', '-', 'b'], 'a + - b - 0'), (['a', '.', '.', 'b'], 'a..b + 0'), (['Total', '+'], 'Total+ + 1 - 1'), (['Total', '+'], 'Total+ * 1')):
         pos_cases.append({'bind': [[parts, 41], [['zz'], 1]], 'e': text, 'want': 41, 'what': 'symbols in a row', 'bound': [parts, ['zz']]})
